@@ -18,7 +18,7 @@ func init() {
 		LevelText:   "Structural clauses decided for all paths: the incorrect-offset error is returned exactly when control is on, the message carries an expected offset and it differs from the offset being assigned, before any byte of that message is serialised; nothing is written when the message set was rejected; control forces single-message batches; the failure is reported with INCORRECT_OFFSET and nothing is queued; NONE-policy publishes are refused on such streams by both publish entry points; appends are serialised (single appender, leader loops joined before hand-over). The race outcomes themselves are not decided.",
 		LevelNote:   "Trusted: go/ssa; the at-most-one-winner argument additionally needs serialised Append calls, which rests on R01.2 and R02.1.",
 		DesignRef:   "DESIGN.md §4 C16",
-		Explanation: "Round 12: R16.5 also: publishSync is told the stream of the message it publishes at every call; R14.9 also: an envelope's expected offset is stored as sent. Rounds 9-10: R16.5 also: the ack inbox is not limited to one message, a foreign ack never completes a publish, a publish goes on the wire once; R16.8 also: StreamConfig copies are complete; R01.1 (shared). R05.8 (shared, round 8): after a recovery the next offset is derived from the index as it is after the repair. R16.5 also: a publish to a stream with concurrency control waits for its ack (F94); R05.1 (shared) a failed append leaves nothing behind. R16.1 expected-offset test, R16.2 nothing written on rejection, R16.3 single-message batches and INCORRECT_OFFSET nack, R16.4 single appender (shared R01.2/R02.1), R16.5 NONE policy refused, R16.7 every StreamsConfig field is seeded from the server configuration, R16.8 the per-stream setting travels request → replicated config → partition settings → log options; R16.3 also requires that the re-used batch buffer does not escape its iteration. R16.5 holds for every function that sends a PublishRequest's message; R16.8 also requires field-by-field configuration copies to be complete; R15.8 (shared) streams.concurrency.control reaches its Config field. NOT decided: the race outcomes. R14.9 (shared with C14) a raw payload, which cannot carry an expected offset, is built with the waiver -1. ",
+		Explanation: "R16.1 reads the refusal of a conditional publish also as one joined condition. Round 12: R16.5 also: publishSync is told the stream of the message it publishes at every call; R14.9 also: an envelope's expected offset is stored as sent. Rounds 9-10: R16.5 also: the ack inbox is not limited to one message, a foreign ack never completes a publish, a publish goes on the wire once; R16.8 also: StreamConfig copies are complete; R01.1 (shared). R05.8 (shared, round 8): after a recovery the next offset is derived from the index as it is after the repair. R16.5 also: a publish to a stream with concurrency control waits for its ack (F94); R05.1 (shared) a failed append leaves nothing behind. R16.1 expected-offset test, R16.2 nothing written on rejection, R16.3 single-message batches and INCORRECT_OFFSET nack, R16.4 single appender (shared R01.2/R02.1), R16.5 NONE policy refused, R16.7 every StreamsConfig field is seeded from the server configuration, R16.8 the per-stream setting travels request → replicated config → partition settings → log options; R16.3 also requires that the re-used batch buffer does not escape its iteration. R16.5 holds for every function that sends a PublishRequest's message; R16.8 also requires field-by-field configuration copies to be complete; R15.8 (shared) streams.concurrency.control reaches its Config field. NOT decided: the race outcomes. R14.9 (shared with C14) a raw payload, which cannot carry an expected offset, is built with the waiver -1. ",
 	})
 }
 
